@@ -299,6 +299,10 @@ def declares_order(ctx):
         order.append((lp, closures, lookups))
         if closures and lookups:
             it = lp.iter
+            if isinstance(it, ast.Name):
+                defs_ = [a_ for a_ in walk_func(fn) if isinstance(a_, ast.Assign) and len(a_.targets) == 1 and isinstance(a_.targets[0], ast.Name) and a_.targets[0].id == it.id]
+                if len(defs_) == 1:
+                    it = defs_[0].value
             ok = False
             why = "iterates `%s`" % src(it)
             if isinstance(it, ast.Call) and dotted(it.func) == "sorted":
